@@ -35,3 +35,7 @@ mod c07;
 mod c08;
 #[cfg(all(kani, feature = "c16"))]
 mod c16;
+#[cfg(all(kani, feature = "c32"))]
+mod c32;
+#[cfg(all(kani, feature = "c04"))]
+mod c04;
